@@ -291,7 +291,10 @@ def _handle_block_end(line_num: int, violation: "Violation", state: _BlockState)
 
 
 def _parse_ignore_start_rules(line: str) -> set[str]:
-    """Extract rule names from ignore-start directive."""
+    """Extract rule names from ignore-start directive (space-separated or bracketed list)."""
+    bracket_match = re.search(r"ignore-start\[([^\]]+)\]", line, re.IGNORECASE)
+    if bracket_match:
+        return {r.strip() for r in bracket_match.group(1).split(",") if r.strip()}
     match = re.search(r"ignore-start\s+(" + _RULE_WORDS + ")", line, re.IGNORECASE)
     if match:
         rules_text = match.group(1).strip()
